@@ -97,11 +97,11 @@ Theorem move_empties_source : forall sc st h1 p1 j1 h2 p2 j2 st',
 Proof. exact (fun sc st h1 p1 j1 h2 p2 j2 st' H => a_move_slot sc _ h1 p1 j1 h2 p2 j2 _ (cstep_astep _ _ _ _ _ H)). Qed.
 Print Assumptions move_empties_source.
 
-Theorem move_struct_empties_source : forall sc st h1 p1 h2 p2 st',
-  cstep sc st (OMoveRow h1 p1 h2 p2) = (st', 0) ->
+Theorem move_struct_empties_source : forall sc st n h1 p1 h2 p2 st',
+  cstep sc st (OMoveRow n h1 p1 h2 p2) = (st', 0) ->
   exists s, aread_row (abs_state st) h1 p1 = Some s /\ aread_row (abs_state st') h2 p2 = Some s /\
-            aread_row (abs_state st') h1 p1 = Some (map vmoved s).
-Proof. exact (fun sc st h1 p1 h2 p2 st' H => a_move_row sc _ h1 p1 h2 p2 _ (cstep_astep _ _ _ _ _ H)). Qed.
+            aread_row (abs_state st') h1 p1 = Some (vzero_row sc n).
+Proof. exact (fun sc st n h1 p1 h2 p2 st' H => a_move_row sc _ n h1 p1 h2 p2 _ (cstep_astep _ _ _ _ _ H)). Qed.
 Print Assumptions move_struct_empties_source.
 
 Theorem moved_is_empty : forall l t z, vmoved (VS l) = VS [] /\ vmoved (VI t z) = VI 0 0 /\ vmoved (VP z) = VP 0.
